@@ -107,6 +107,38 @@ Theorem C15_drain_writes_owed_every_state : forall fuel w w',
   w_wire w' = w_wire w ++ owed (s_ob (fst (maybe_queue_pingreq (w_sess w) (w_now w)))) /\ next_step (s_ob (w_sess w')) = None.
 Proof. exact flush_outbound_wire_any. Qed.
 
+From Minimq Require Import ConnectOk Pings.
+
+(* ---- EVERY transport, slow writes included (script kinds 4 / 5: time passes inside write()) ----
+   When the clock moves inside the drain a PINGREQ can fall due in the middle of it, even in the middle of a packet.  It joins
+   the control queue, the entry in progress is finished first, and at most one joins.  What a completed drain has written is
+   `owed` with at most one PINGREQ inserted (that the insertion point is a packet boundary is C01_wire_is_whole_packets). *)
+Theorem C15_engine_step_prefix : forall st now w w' r,
+  WInv (w_sess w) -> next_step (s_ob (w_sess w)) = Some st ->
+  perform_outbound_step st now w = (w', r) -> not_failed r ->
+  exists P, w_wire w' = w_wire w ++ P /\ owed (s_ob (w_sess w)) = P ++ owed (s_ob (w_sess w')).
+Proof. exact step_prefix. Qed.
+
+Theorem C15_drain_every_transport : forall fuel w w',
+  WInv (w_sess w) -> flush_outbound fuel w = (w', ODone tt) ->
+  (w_wire w' = w_wire w ++ owed (s_ob (w_sess w)) \/
+   exists A B, owed (s_ob (w_sess w)) = A ++ B /\ w_wire w' = w_wire w ++ A ++ PINGREQ_BYTES ++ B) /\
+  next_step (s_ob (w_sess w')) = None.
+Proof. exact flush_outbound_wire_every_transport. Qed.
+
+(* once a PINGREQ is queued or outstanding, no other joins: exactly `owed`, whatever time the writes take *)
+Theorem C15_drain_no_more_ping : forall fuel w w',
+  WInv (w_sess w) -> NoMorePing (w_sess w) -> flush_outbound fuel w = (w', ODone tt) ->
+  w_wire w' = w_wire w ++ owed (s_ob (w_sess w)) /\ next_step (s_ob (w_sess w')) = None.
+Proof. exact flush_outbound_wire_nmp. Qed.
+
+Theorem C15_slow_write_example :
+  rt_next_ping (s_rt (w_sess ex_slow)) = Some 500 /\
+  snd (op_publish FUEL ex_pub ex_slow) = ODone (Some {| op_kind := 0; op_pid := 1; op_gen := 1 |}) /\
+  w_now (fst (op_publish FUEL ex_pub ex_slow)) = 800 /\
+  w_wire (fst (op_publish FUEL ex_pub ex_slow)) = w_wire ex_slow ++ [50; 9; 0; 1; 116; 0; 1; 0; 1; 2; 3] ++ PINGREQ_BYTES.
+Proof. exact slow_write_example. Qed.
+
 Print Assumptions C15_reader_relation_is_a_function.
 Print Assumptions C15_reader_chunking_independent.
 Print Assumptions C15_loop_refines_relation.
@@ -123,3 +155,7 @@ Print Assumptions C15_written_prefix_leaves_owed.
 Print Assumptions C15_drain_writes_owed_any_fragmentation.
 Print Assumptions C15_nothing_to_do_nothing_owed.
 Print Assumptions C15_drain_writes_owed_every_state.
+Print Assumptions C15_engine_step_prefix.
+Print Assumptions C15_drain_every_transport.
+Print Assumptions C15_drain_no_more_ping.
+Print Assumptions C15_slow_write_example.
